@@ -63,6 +63,7 @@ type KDC struct {
 	TicketLifetime  time.Duration
 	ServiceLifetime time.Duration // lifetime of service tickets (0 = TicketLifetime)
 	RenewLifetime   time.Duration
+	Backdate        time.Duration // initial tickets carry an authtime/starttime this far in the past
 	Referrals       map[string]string // service host suffix -> next realm (referral TGT krbtgt/NEXT@Realm)
 	CrossKeys       map[string]map[int32]types.EncryptionKey // realm -> keys of krbtgt/realm@Realm
 	Issues          []Issue
@@ -291,7 +292,7 @@ func (k *KDC) handleAS(raw []byte) []byte {
 	if !renew.IsZero() {
 		types.SetFlag(&fl, 8)
 	}
-	start := now.Truncate(time.Second)
+	start := now.Add(-k.Backdate).Truncate(time.Second)
 	etp := messages.EncTicketPart{Flags: fl, Key: skey, CRealm: k.Realm, CName: req.ReqBody.CName, AuthTime: start, StartTime: start, EndTime: end, RenewTill: renew, CAddr: req.ReqBody.Addresses}
 	tet, _ := pickEtype(AllEtypes, svc.Keys)
 	tkt, err := sealTicket(etp, svc.Keys[tet], svc.KVNO, k.Realm, sname)
